@@ -256,3 +256,6 @@ def check(ctx, env):
     r2_4_big_endian(ctx, prog)
     r2_5_constants(ctx, prog)
     ctx.extra["exhaustive"] = True
+    if env.tier == "thorough":
+        from .. import witness
+        witness.run(ctx, "R2.2", ["W2"])
